@@ -17,6 +17,7 @@ import (
 
 func TestMain(m *testing.M) {
 	document.SetGlobalLevel(document.LogLevelSilent)
+	heapGuard() // wfextra.go
 	if p := os.Getenv(childEnv); p != "" {
 		os.Exit(childMain(p)) // a case judged alone in a fresh process (hist.go)
 	}
@@ -37,7 +38,11 @@ type Case struct {
 	// Follow: calls made on the opened document before the fixed edit script, in this order (optparts.go: FollowOps). They decide
 	// which call is the first to need one of the optional parts Open only stored.
 	Follow []string `json:"follow,omitempty"`
-	Hist   *Hist    `json:"hist,omitempty"` // provenance of a generated case (hist.go); not part of the input
+	// TEdits: calls made on every opened table (at most maxTablesEdited) before the fixed table script, in this order (tables.go)
+	TEdits []TEdit `json:"tedits,omitempty"`
+	// Twin: the bytes are opened twice; the second document is read, edited and saved after the first one went through the same
+	Twin bool  `json:"twin,omitempty"`
+	Hist *Hist `json:"hist,omitempty"` // provenance of a generated case (hist.go); not part of the input
 }
 
 // runLocal judges the case in this process.
@@ -74,6 +79,10 @@ func runLocal(c Case) *kit.Result {
 		}
 		shape = append(shape, n+"="+sb.String()+"|"+p.Prolog+"|"+strings.Join(p.Ops, "+"))
 		for _, op := range p.Ops {
+			if strings.HasPrefix(op, "shape:") {
+				res.Label(op) // a producer shape (math.go, tables.go), not a fault: the part stays well-formed
+				continue
+			}
 			if op == "distinct" {
 				res.Label("shape:distinct-values") // not a fault: the part stays well-formed
 				continue
@@ -110,7 +119,7 @@ func runLocal(c Case) *kit.Result {
 	if !faulted {
 		res.Label("fault:none")
 	}
-	in := judgeOpen(res, b, via, c.Follow)
+	in := judgeOpen(res, b, via, c.Follow, c.TEdits, c.Twin)
 	if in.Zip {
 		res.Label("input:zip")
 	}
@@ -125,6 +134,21 @@ func runLocal(c Case) *kit.Result {
 	}
 	if in.HasMain && in.MainClean {
 		res.Label("input:main-wellformed")
+	}
+	if in.Formulas > 0 {
+		res.Label("input:formula")
+	}
+	if in.VMerge > 0 {
+		res.Label("input:vMerge")
+	}
+	if in.OddSpan > 0 {
+		res.Label("input:gridSpan-not-a-positive-number")
+	}
+	if in.OddSpanOnVMerge > 0 {
+		res.Label("input:gridSpan-not-a-positive-number+vMerge")
+	}
+	if in.TblBeforeP > 0 {
+		res.Label("input:cell-with-table-before-paragraph")
 	}
 	if in.SDT > 0 {
 		res.Label("input:sdt")
@@ -187,6 +211,16 @@ func runLocal(c Case) *kit.Result {
 		name, _ := opName(c.Follow[0])
 		res.Label("follow-first:" + name)
 		shape = append(shape, "follow:"+strings.Join(c.Follow, ","))
+	}
+	if len(c.TEdits) > 0 {
+		ops := make([]string, 0, len(c.TEdits))
+		for _, e := range c.TEdits {
+			ops = append(ops, e.Op)
+		}
+		shape = append(shape, "tedits:"+strings.Join(ops, ","))
+	}
+	if c.Twin {
+		shape = append(shape, "twin")
 	}
 	for _, k := range []int{100, 1000, 10000, 30000} {
 		if in.Distinct >= k {
@@ -289,6 +323,17 @@ func TestC06(t *testing.T) {
 	must["opt:damaged-part"] = 0.01
 	must["opt:root-prefix-not-w"] = 0.01
 	must["follow:drawn"] = 0.05
+	// producer shapes (math.go, tables.go) and the edits made on opened tables
+	must["shape:table"] = 0.05
+	must["shape:table:vMerge"] = 0.03
+	must["shape:table:odd-span-value"] = 0.012
+	must["input:gridSpan-not-a-positive-number+vMerge"] = 0.008
+	must["input:cell-with-table-before-paragraph"] = 0.015
+	must["shape:math"] = 0.04
+	must["opened-formula-paragraph"] = 0.008
+	must["sweep:single-edits-on-copies"] = 0.15
+	must["tedits:drawn"] = 0.05
+	must["twin:second-document-after-the-first"] = 0.01
 	var crashers []Case
 	if kit.Tier == "thorough" && kit.Shard == 0 && os.Getenv("VERIF_REPLAY") == "" {
 		crashers = nativeFuzz(t) // generator (d); its crashers go through the verdict pipeline as fixed cases
@@ -298,26 +343,30 @@ func TestC06(t *testing.T) {
 		Rule: "a case is a package description: (a) word/document.xml as an element tree over the reader's own vocabulary (" + fmt.Sprint(len(v.Elems)) + " element names extracted from " + v.Source +
 			"; string values partly composed from the string constants the reader compares values with or slices them by, extracted the same way: " + fmt.Sprint(len(v.Own)) +
 			" elements have such constants of their own) with 0-3 fault operators, content controls / fields as other producers write them (instruction split over runs, truncated, unbalanced quotes, incomplete fldChar sequences), " +
+			"tables as word processors write them (merged regions with w:gridSpan / w:vMerge / w:hMerge on a consistent grid, span values that are zero, negative, fractional, huge or no numbers, cells that interleave paragraphs and nested tables, 9-17 and 32-100 rows / columns with a small probability) and formula paragraphs (m:oMath / m:oMathPara in every binding of the math namespace, with markup encoding/xml tolerates inside), " +
 			"attribute values that differ from slot to slot and case to case, in ~4.5% of the cases preceded by 1-3 Opens of packages with 10^4..5*10^4 distinct attribute values each (the case is then a sequence of Opens in one process), " +
 			"(b) the standard optional parts ([Content_Types].xml, _rels/.rels, document.xml.rels, styles.xml, core.xml) mutated by the same operators, (c) container-level operators, " +
 			"(o) the optional parts Open only stores (" + strings.Join(ov.Parts, ", ") + "; vocabulary of their lazy, byte-splicing readers extracted from " + ov.Source + ": " + fmt.Sprint(len(ov.Elems)) + " element names, " +
 			fmt.Sprint(len(ov.Attrs)) + " attribute names) as other producers write them - other prefixes, self-closing roots, children in foreign namespaces directly under the root, odd ids, damaged content - " +
 			"together with a drawn script of the follow-up calls that read / extend them (lists, notes, note counts and removals, footnote configuration, style-referring edits, intermediate saves); " +
+			"45% of the cases with a generated main part carry a drawn script of 1-7 edits of the opened tables (row / column / cell / merge / format calls with drawn positions, intermediate saves), 4.5% open their bytes twice and take the second document through the follow-up after the first; " +
 			"non-trivial = the bytes are a readable zip containing word/document.xml, the case is not the unmodified standard package, and at least one start element of the main part tokenises; " +
 			"distinct = distinct (generator, element skeleton with bucketed repetition/nesting, prolog, fault operators, container operators, open outcome)",
 		Gen: genStamped, Run: run, Findings: findings, Fixed: func() []Case { return append(fixed(), crashers...) },
 		Assumptions: []string{
-			"termination is observed through a 10 s (thorough 20 s) per-case watchdog (typical case: milliseconds) and the driver's re-run of the saved case",
+			"termination is observed through a 20 s per-case watchdog (typical case: milliseconds) and the driver's re-run of the saved case",
 			"well-formedness of the regenerated main part is decided by the harness's own checker, not by a schema validator",
 			"the package-level clause T3.p3 is demanded only when the input's content types and package relationships were the standard ones or in the class the library replaces by defaults (absent, or not readable as XML up to the end of the root element)",
 			"per opened document the table script runs on at most 6 tables and visits at most 3000 cells per table",
+			"the single-edit sweep (every row / column position up to 12, every cell of the first 12 x 12: InsertRow, DeleteRow, InsertColumn, DeleteColumn, ClearTable, ClearCellParagraphs, MergeCellsVertical / Horizontal, UnmergeCells, ClearCellContent, SetCellText, AddNestedTable, each on its own CopyTable() copy) runs on opened tables of at most 150 cells + paragraphs + runs (nested tables included) without a span above 2000, at most 220 edits per document (all positions first, then an even selection of the cell edits); 32 evenly chosen copies join the document through Body.AddElement and are saved with it - that save is judged for panics always, for well-formedness when its main part is at most 48 KB",
+			"a live heap above 2.5 GB ends the process like the per-case watchdog does (a call that allocates in a loop that never ends); the driver replays the case",
 			"the clause on the re-saved optional parts (numbering, notes, settings, styles) is demanded only for a part the input carried well-formed (harness checker, UTF-8) or did not carry, and decided on parts up to 1 MB",
 			"memory exhaustion is out of scope: generated parts are capped at 4 MB (thorough 12 MB)",
 			"every case is judged in the process that judged all earlier cases of the shard (state the reader keeps per process accumulates on purpose); at the first unattributed panic the case is judged once more alone in a fresh child process to tell an input-dependent failure from a history-dependent one, and what rapid asks for afterwards (reproduction, shrink candidates) is judged in fresh child processes",
 			"a history-dependent failure is reproduced from the provenance stamp of the saved case (seed, shard, tier, index): rapid's case sequence is a pure function of the seed, the regeneration is validated by regenerating the stamped case itself; a history re-run that cannot be completed (generator changed, 400 s budget) is reported as INCONCLUSIVE or judged alone, never as a violation",
 		},
 		MustSee:   must,
-		CaseLimit: time.Duration(kit.Scale(10, 20)) * time.Second,
+		CaseLimit: 20 * time.Second, // DESIGN C06 T1: limit 20 s (typical case: milliseconds); a shared machine stalls a process for seconds
 		Extra: func() map[string]interface{} {
 			return map[string]interface{}{"vocabulary_source": v.Source, "vocabulary_elements": fmt.Sprint(len(v.Elems)),
 				"vocabulary_value_constants": fmt.Sprint(len(v.Global)), "cases_judged_in_child_processes": proc.children,
